@@ -101,6 +101,28 @@ theorem get_after_put (c : Cache V) (now now' : Nat) (k : Bytes) (v : V)
   · simp [hq] at hfresh ⊢; exact hfresh
   · simp [hq] at hfresh ⊢; exact hfresh
 
+/-- The second critical section of a Get that found an expired entry — which may run after any number of other
+    operations — removes the key only if the entry that is in the map THEN is strictly expired: a value stored in
+    between with time to live is still there afterwards, so a later lookup hits it. (The two-phase structure of
+    `AttrCache.Get` / `DirCache.Get`: decision under the read lock, removal under the write lock after a re-check of
+    the current entry; the fifth campaign's C21 change re-checked the entry seen before the lock upgrade.) -/
+theorem late_expiry_spares_a_fresh_value (c : Cache V) (now now' : Nat) (k : Bytes) (v : V)
+    (hfresh : if c.hitAtEq then now' ≤ now + c.ttl else now' < now + c.ttl) :
+    getRead (expireRemove (put c now k v) now' k) now' k = .hit v := by
+  have hl : lookup (put c now k v) k = some { key := k, val := some v, expireAt := now + c.ttl } := by
+    simp only [put, putEntry]
+    split <;> simp [lookup_cons]
+  have hnot : ¬ now' > now + c.ttl := by
+    by_cases hq : c.hitAtEq = true
+    · simp [hq] at hfresh; omega
+    · simp [hq] at hfresh; omega
+  have : expireRemove (put c now k v) now' k = put c now k v := by
+    unfold expireRemove
+    rw [hl]
+    simp [hnot]
+  rw [this]
+  exact get_after_put c now now' k v hfresh
+
 /-- … and nothing once it has expired (attribute cache: at or after expireAt; directory cache: after). -/
 theorem get_expired (c : Cache V) (now : Nat) (k : Bytes) (e : Entry V) (hl : lookup c k = some e)
     (hexp : if c.hitAtEq then e.expireAt < now else e.expireAt ≤ now) :
